@@ -445,7 +445,11 @@ OnEnter(m, o) ==
     ELSE LET ok == m.last.kind # "none" /\ m.last.s = o.sys
              c == IF ok THEN m.last ELSE [NoCmd EXCEPT !.s = o.sys, !.kind = "run", !.st = "reached"]
              m1 == Chk(m, ok, "C02", "runner entered without a command application")
-         IN Push([m1 EXCEPT !.cmd = Put(@, o.k, [c EXCEPT !.seq = o.k]), !.last = NoCmd],
+             \* finding F1: another delivery to the same system is applied but has neither started nor been postponed yet
+             \* (it is inside its runner's entry poll, which is dispatching this one)
+             inflight == { j \in DOMAIN m.cmd : m.cmd[j].s = c.s /\ m.cmd[j].st = "reached" }
+             m2 == IF inflight # {} THEN [m1 EXCEPT !.taint = @ \cup inflight \cup {o.k}] ELSE m1
+         IN Push([m2 EXCEPT !.cmd = Put(@, o.k, [c EXCEPT !.seq = o.k]), !.last = NoCmd],
                  [f |-> "cmd", k |-> o.k, s |-> c.s, took |-> FALSE, r |-> 0, bd |-> FALSE, fin |-> FALSE, lastop |-> 0, idx |-> o.idx])
 
 SetCmd(m, k, st) == [m EXCEPT !.cmd = [@ EXCEPT ![k].st = st]]
@@ -482,7 +486,9 @@ OnTake(m, o) ==
         \* deliveries to the same system that were applied earlier and have not started: only possible when a poll
         \* runs a reaction in-line for a system that has a delivery between "applied" and "started"
         older == { j \in DOMAIN m.cmd : j # o.k /\ m.cmd[j].s = c.s /\ m.cmd[j].st \in Pending /\ m.cmd[j].seq < c.seq }
-        m6 == IF older # {} THEN [m5 EXCEPT !.taint = @ \cup older \cup {o.k}] ELSE m5
+        \* (a REPLAYED command with an older pending one is simply out of order - not this finding)
+        \* (the finding propagates: a command that starts while an already affected older delivery is still pending takes its entry)
+        m6 == IF older # {} /\ (c.st = "reached" \/ older \cap m.taint # {}) THEN [m5 EXCEPT !.taint = @ \cup older \cup {o.k}] ELSE m5
     IN SetCmd(m6, o.k, "running")
 
 Elems(v) == { v[i] : i \in DOMAIN v }
